@@ -122,7 +122,7 @@ EXTRA_TEXT = {
     "C17": " Module answers rotate over data / events / both / nothing (reply_on Success and Always must still deliver exactly that answer); execute_multi batches: modules see exactly the prefix up to the first failing message.",
     "C18": " Whatever validation accepts it returns unchanged (all upper case and non-zero padding-bit spellings of valid addresses are tried).",
     "C19": " Staking and bank programs are generated on a thread of their own and compared between a never-used thread, the used worker thread and other processes that receive the programs in a file; transcripts include env.transaction, reply.gas_used and reply.msg_responses.",
-    "C20": " Steps given twice (decoy first) equal the chain with the value supplied last; every wrapped entry point's whole response (attributes, event, data, sub-messages with gas limits, plain messages) arrives unchanged; App::default / App::new / custom_app give the documented defaults.",
+    "C20": " The wrapper chains also run on a build of the repository with its default feature set (what a wrapper keeps must not depend on the build's features). Steps given twice (decoy first) equal the chain with the value supplied last; every wrapped entry point's whole response (attributes, event, data, sub-messages with gas limits, plain messages) arrives unchanged; App::default / App::new / custom_app give the documented defaults.",
 }
 for _pid, _t in EXTRA_TEXT.items():
     P[_pid]["text"] += _t
@@ -152,7 +152,7 @@ def main():
             engines.setdefault(p["engine"], []).append(pid)
     m = {
         "version": 1,
-        "setup_cmd": "cd /verif && CARGO_NET_OFFLINE=true cargo build --offline --profile verif --manifest-path harness/Cargo.toml --target-dir target --bins",
+        "setup_cmd": "cd /verif && CARGO_NET_OFFLINE=true cargo build --offline --profile verif --manifest-path harness/Cargo.toml --target-dir target --bins && CARGO_NET_OFFLINE=true cargo build --offline --profile verif --manifest-path harness-min/Cargo.toml --target-dir target/min --bins",
         "hooks": {
             "guard": "cargo feature `verif` of cw-multi-test (off by default)",
             "enable": "the harness crate depends on cw-multi-test = { path = \"/repo\", features = [\"verif\", \"staking\", \"stargate\", \"cosmwasm_2_2\"] }; ./check rebuilds it from /repo's working tree on every invocation",
